@@ -72,12 +72,19 @@ def tier_plan(tier):
             dict(name='mc2-full-unreduced', workers=3, cfg=dict(spec='Spec', threads=2)),
             # the full next-state relation, 3 threads
             dict(name='mc3-unreduced', workers=3, cfg=dict(spec='Spec', threads=3, symmetry=True, nest=0, redef=0, coll=1)),
+            # 4 threads
+            dict(name='mc4', workers=3, cfg=dict(spec='RSpec', threads=4, symmetry=True, nest=0, fail=1, redef=0, coll=1)),
             # liveness (no symmetry): every request returns
             dict(name='mc2-live', workers=2, cfg=dict(spec='FairSpec', threads=2, redef=0, coll=1, nest=1, fail=1,
                                                      properties=('Returns',))),
+            # random behaviours of a much bigger instance (6 threads, 2 requests each, 4 function objects, 3 option
+            # values, depth 3, 2 redefinitions, 2 collections), invariants checked in every state
+            dict(name='sim6', workers=3, simulate=dict(num=5000, depth=500),
+                 cfg=dict(spec='Spec', threads=6, codes=5, envs=3, opts=3, fns='Fns4', req=2, depth=3, nest=2, fail=2,
+                          redef=2, coll=2)),
         ],
         stress_procs=9, batch_events=150000,
-        replay=dict(num=2400, configs=[dict(threads=2, req=2), dict(threads=3, req=2), dict(threads=4, req=2),
+        replay=dict(num=3600, configs=[dict(threads=2, req=2), dict(threads=3, req=2), dict(threads=4, req=2),
                                        dict(threads=6, req=1, fns='Fns4')]),
         trace_workers=4)
 
@@ -86,7 +93,8 @@ def tier_plan(tier):
 def run_models(rep, models, out):
     def one(m):
         res = tlc.run_tlc('ConvCache', model_cfg(**m['cfg']), workers=m['workers'], timeout=m.get('timeout', 1500),
-                          name='c10_' + m['name'])
+                          name='c10_' + m['name'], simulate=m.get('simulate'),
+                          seed=(common.seed() * 7 + 1) if m.get('simulate') else None)
         out.append((m, res))
     ths = [threading.Thread(target=one, args=(m,)) for m in models]
     for th in ths:
@@ -253,20 +261,40 @@ def sched_cfg(threads=3, req=2, fns='Fns3', codes=3, envs=3, opts=2, **kw):
 
 def generate_schedules(plan, seed, out):
     per = max(1, plan['num'] // len(plan['configs']))
-    for k, c in enumerate(plan['configs']):
+    results = {}
+
+    def one(k, c):
         c = dict(c)
         fns = c.get('fns', 'Fns3')
-        got = []
-        tries = 0
+        got, runs, tries = [], [], 0
         while len(got) < per and tries < 6:
-            res = tlc.run_tlc('SchedConvCache', sched_cfg(**c), workers=2, timeout=600, name='c10_sched%d' % k,
-                              simulate=dict(num=max(8, (per - len(got) + 1) // 2), depth=400), seed=seed * 131 + k * 17 + tries)
+            # one worker: the generated set of schedules is a function of VERIF_SEED
+            res = tlc.run_tlc('SchedConvCache', sched_cfg(**c), workers=1, timeout=900, name='c10_sched%d' % k,
+                              simulate=dict(num=per - len(got), depth=400), seed=seed * 131 + k * 17 + tries)
             res.require_ok('SchedConvCache')
             got += [h for h in res.json if isinstance(h, list) and h]
-            out['tlc'].append(res)
+            runs.append(res)
             tries += 1
-        for h in got[:per]:
-            out['jobs'].append(dict(hist=h, init_fns=INIT_FNS[fns], threads=c['threads']))
+        results[k] = (runs, [dict(hist=h, init_fns=INIT_FNS[fns], threads=c['threads']) for h in got[:per]])
+
+    errs = []
+
+    def guarded(k, c):
+        try:
+            one(k, c)
+        except BaseException as e:  # noqa: BLE001
+            errs.append(e)
+
+    ths = [threading.Thread(target=guarded, args=(k, c)) for k, c in enumerate(plan['configs'])]
+    for th in ths:
+        th.start()
+    for th in ths:
+        th.join()
+    if errs:
+        raise errs[0]
+    for k in sorted(results):
+        out['tlc'] += results[k][0]
+        out['jobs'] += results[k][1]
 
 
 # ---- the check ---------------------------------------------------------------------------------------------
@@ -369,7 +397,7 @@ def run(rep):
         rep.set('stress', dict(traces=len(traces), rejected=nrej, by_threads=_count_by(jobs, 'nthreads'), totals=agg,
                                event_kinds=kinds))
         needed = {'req', 'has_start', 'has_end', 'load', 'acquired', 'released', 'transform_begin', 'transform_ok',
-                  'transform_fail', 'store', 'inst', 'ret', 'err', 'def', 'collect'}
+                  'transform_fail', 'parse_fail', 'store', 'inst', 'ret', 'err', 'def', 'collect'}
         vacuity = []
         if needed - set(kinds):
             vacuity.append('stress traces never exercised: %s' % sorted(needed - set(kinds)))
@@ -403,7 +431,7 @@ def run(rep):
         rep.set('replay', dict(schedules=len(replays), steps_compared=nsteps, actions=acts,
                                by_threads=_count_by(sched['jobs'], 'threads')))
         all_actions = {'Start', 'HasBegin', 'FastRead', 'HasEnd', 'FastGet', 'Acquire', 'ReCheck', 'LockGet', 'TransformBegin',
-                       'Nested', 'TransformFail', 'TransformOk', 'Store', 'Release', 'ReleaseFail', 'Raise', 'Instantiate',
+                       'Nested', 'ParseFail', 'TransformFail', 'TransformOk', 'Store', 'Release', 'ReleaseFail', 'Raise', 'Instantiate',
                        'Return', 'Redefine', 'Collect'}
         if all_actions - set(acts):
             vacuity.append('replayed schedules never took: %s' % sorted(all_actions - set(acts)))
@@ -467,7 +495,13 @@ def replay(path):
                 print('   ', e)
             print('observed history:', {k: ends[(t['id'], 'obs')][k] for k in ('amo', 'coh', 'alias', 'stale')} if (t['id'], 'obs') in ends else None)
             bad = (t['id'], 'strict') not in ends
-            print('REPRODUCED' if bad else 'NOT REPRODUCED')
+            if 'job' in w:
+                r = c10_stress.run_job_safe(dict(w['job'], scratch=scratch))
+                if 'trace' in r:
+                    ends2, _, _ = validate_traces([r['trace']], scratch, 2, 'replay2', modes=('strict',))
+                    print('the same job re-run on the current tree (new interleaving, %d events): %s' % (
+                        len(r['trace']['ev']), 'accepted' if (r['trace']['id'], 'strict') in ends2 else 'REJECTED'))
+            print('REPRODUCED (the recorded trace is not a behaviour of ConvCache)' if bad else 'NOT REPRODUCED')
             return 1 if bad else 0
         if 'job' in w:
             job = dict(w['job'], scratch=scratch)
@@ -504,7 +538,7 @@ def selftest():
     import re
     cov = {m.group(1): int(m.group(2)) for m in re.finditer(r'(?m)^<(\w+) line [^>]*>: (\d+):\d+', res.stdout)}
     wanted = ['SomeStart', 'HasBegin', 'FastRead', 'HasEnd', 'FastGet', 'Acquire', 'ReCheck', 'LockGet', 'TransformBegin',
-              'SomeNested', 'TransformFail', 'TransformOk', 'Store', 'Release', 'ReleaseFail', 'Raise', 'Instantiate', 'Return',
+              'SomeNested', 'ParseFail', 'TransformFail', 'TransformOk', 'Store', 'Release', 'ReleaseFail', 'Raise', 'Instantiate', 'Return',
               'SomeRedefine', 'SomeCollect']
     missing = [a for a in wanted if cov.get(a, 0) == 0 and cov.get(a.replace('Some', ''), 0) == 0]
     print('selftest: coverage of actions: %s' % ('all taken' if not missing else 'NEVER TAKEN: %s' % missing))
